@@ -38,15 +38,15 @@ def _case(args):
     blur = USAGE_BLURS[seed % len(USAGE_BLURS)]
     if want == "C16" and blur is None:
         blur = 45
-    cfg = {"allow_list": rng.random() < 0.8, "usage": True if want in ("C16", "C14") else rng.random() < 0.7, "blur": blur}
+    cfg = {"allow_list": rng.random() < 0.8, "usage": True if want in ("C16", "C14", "C03") else rng.random() < 0.7, "blur": blur}
     res = {"seed": seed, "profile": "lock", "cfg": cfg, "n_events": 0, "div": None, "mon": {},
-           "nontrivial": {"C09": 0, "C16": 0, "C02": 0, "C14": 0}, "kf": [], "stale": [], "kinds": {}, "meta": {}, "no_model": True}
+           "nontrivial": {"C09": 0, "C16": 0, "C02": 0, "C14": 0, "C03": 0}, "kf": [], "stale": [], "kinds": {}, "meta": {}, "no_model": True}
     try:
         w = WORLD.World(cfg, seed=seed)
     except Exception:
         return {"seed": seed, "profile": "lock", "harness_error": traceback.format_exc()}
     events = []
-    viol09, viol16, viol10, viol13, viol02, viol14 = [], [], [], [], [], []
+    viol09, viol16, viol10, viol13, viol02, viol14, viol03 = [], [], [], [], [], [], []
     arrivals = []            # every time at which the server was handed anything
     try:
         def in_tx():
@@ -118,7 +118,9 @@ def _case(args):
         app = rng.choice(["a1", "a2"])
         c1, b1 = client(app, "s1")
         do({"k": "cmd", "c": c1, "msg": b1})
-        do({"k": "cmd", "c": c1, "msg": {"type": "claim", "nameplate": "1"}})
+        exc, log = do({"k": "cmd", "c": c1, "msg": {"type": "claim", "nameplate": "1"}})
+        first_id = [e[4] for e in log if e[0] == "F" and e[3] == "claimed"]
+        first_id = first_id[0] if first_id else None
         do({"k": "cmd", "c": c1, "msg": {"type": "open", "mailbox": "mlock"}})
         do({"k": "cmd", "c": c1, "msg": {"type": "add", "phase": "p", "body": "00"}})
         c2, b2 = client(app, "s2")
@@ -127,7 +129,7 @@ def _case(args):
         do({"k": "advance", "dt": rng.choice([1, 8, 13, 59 * 8 + 3]), "fault": False})
         closed_or_dropped = set()
         # ---- the fault
-        which = "U" if (want == "C16" or (want in ("C14", "C07", "C08") and cfg["usage"] and rng.random() < 0.7) or (cfg["usage"] and rng.random() < (0.6 if want == "C13" else 0.4))) else "C"
+        which = "U" if (want == "C16" or (want in ("C14", "C07", "C08", "C03") and cfg["usage"] and rng.random() < 0.7) or (cfg["usage"] and rng.random() < (0.6 if want == "C13" else 0.4))) else "C"
         mode = rng.choice(["shared", "reserved"])
         rounds = rng.choice([1, 1, 2])
         for _round in range(rounds):
@@ -145,6 +147,8 @@ def _case(args):
                 kind = "open"
             if want in ("C14", "C07", "C08") and rng.random() < 0.8:
                 kind = rng.choice(["release", "close"])
+            if want == "C03" and rng.random() < 0.8:
+                kind = "release"
             if kind == "bind":
                 do({"k": "cmd", "c": c3, "msg": b3}, faulted=True)
             elif kind == "sweep":
@@ -170,6 +174,21 @@ def _case(args):
                        "allocate": {"type": "allocate"}}[kind]
                 do({"k": "cmd", "c": c3, "msg": msg}, faulted=True)
             unlock()
+            if acked is not None and want == "C03" and acked[0] == "release" and first_id is not None and _round == 0:
+                # C03: side s1 was the only claimant of nameplate "1" and its release was ACKNOWLEDGED (while a fault
+                # struck): that incarnation is retired; whoever claims the name next gets a different mailbox id
+                res["nontrivial"]["C03"] += 1
+                cn, bn = client(app, "s2", cv=False)
+                do({"k": "cmd", "c": cn, "msg": bn})
+                exc, log = do({"k": "cmd", "c": cn, "msg": {"type": "claim", "nameplate": "1"}})
+                ids = [e[4] for e in log if e[0] == "F" and e[1] == cn and e[3] == "claimed"]
+                if ids and ids[0] == first_id:
+                    viol03.append("nameplate 1: its only claimant released it and was answered `released` (while a database was "
+                                  "locked); the next claimant, another side, is told the SAME mailbox id %s as the retired incarnation"
+                                  % M.unhex(first_id))
+                do({"k": "cmd", "c": cn, "msg": {"type": "release"}})
+                do({"k": "disconnect", "c": cn})
+                acked = None
             if acked is not None:
                 # C14 (C07 C08): the command was ACKNOWLEDGED although a fault struck while it ran.  The client that
                 # did not see the answer reconnects with the same side and sends it again: same answer, and the
@@ -278,6 +297,8 @@ def _case(args):
             res["meta"]["C13"] = meta("C13", viol13)
         if viol02:
             res["meta"]["C02"] = meta("C02", viol02)
+        if viol03:
+            res["meta"]["C03"] = meta("C03", viol03)
         if viol14:
             for _p in ("C14", "C07", "C08"):
                 res["meta"][_p] = meta(_p, viol14)
